@@ -71,6 +71,8 @@ M = [
      "        self._pipe = subprocess.Popen(cmd, env=env, stdout=self._stderr_fp, stderr=self._stdout_fp)\n"),
     ("C20-a", ["C20"], "jade/events.py", "            self._events[name].sort(key=lambda x: x.timestamp)\n", "            self._events[name].sort(key=lambda x: x.timestamp, reverse=True)\n"),
     ("C20-b", ["C20"], "jade/jobs/job_submitter.py", "            elif result.is_failed():\n                num_failed += 1\n", "            elif result.return_code != 0:\n                num_failed += 1\n"),
+    ("C20-d", ["C20"], "jade/cli/try_submit_jobs.py", "    setup_event_logging(event_filename, mode=\"a\")\n", "    setup_event_logging(event_filename, mode=\"w\")\n"),
+    ("C20-e", ["C20"], "jade/jobs/job_runner.py", "                os.remove(job_file)\n", "                pass\n"),
     ("C20-c", ["C20"], "jade/resource_monitor.py", "                self._summaries[\"average\"][resource_type][stat_name] = val / self._count\n",
      "                self._summaries[\"average\"][resource_type][stat_name] = val / max(1, self._count - 1)\n"),
 ]
